@@ -15,6 +15,22 @@ def docs(ctx, n, finite=True, depth=4, plain=False):
             ('a', [('s', b'a'), ('s', b'a'), ('u', 1), ('i', 1), ('d', gen.float_to_bits(1.0)), ('s', b'A')]),
             ('o', sorted([(b'Key', ('u', 1)), (b'key', ('u', 2)), (b'kEy', ('u', 3))])),
             ('o', sorted([('é'.encode(), ('s', 'ü'.encode())), ('日本'.encode(), ('a', []))]))]
+    T, F, E = ('b', True), ('b', False), ('s', b'')
+    one = ('u', 1)
+    # shapes at the edges of the offset arithmetic: values with empty payloads only, an empty payload right before a
+    # container, single elements, empty containers with siblings, non-ASCII keys below the top level, numbers at the
+    # width boundaries, a last byte that is ASCII whitespace
+    base += [('o', [(b'a', N)]), ('o', [(b'read', T), (b'write', F)]), ('o', [(b'', N)]), ('o', [(b'k', E)]),
+             ('o', [(b'a', N), (b'b', E), (b'c', T)]), ('a', [T, F]), ('a', [E]), ('a', [N, T, E]),
+             ('o', [(b'a', N), (b'b', ('o', [(b'k', one)]))]), ('a', [T, ('a', [('u', 10), ('u', 20)])]), ('a', [E, ('o', [(b'x', ('s', b'y'))])]),
+             ('a', [('u', 7)]), ('a', [('s', b'x')]), ('a', [('a', [one])]), ('o', [(b'only', ('a', [N]))]),
+             ('a', [('a', []), ('u', 7)]), ('o', [(b'a', ('a', [])), (b'b', ('s', b'x'))]), ('o', [(b'a', ('o', [])), (b'b', one)]),
+             ('o', [(b'o', ('o', sorted([('é'.encode(), one), (b'z', ('a', [('o', sorted([('ü'.encode(), N), (b'y', one)]))]))])))]),
+             ('a', [('a', [('o', [(b'a', N), (b'b', one)])]), ('u', 2)]), ('o', [(b'rows', ('a', [('a', [('o', [(b'z', N)])])]))]),
+             ('a', [('u', 200), ('u', 255), ('u', 256), ('i', 200), ('i', 40000), ('i', -129), ('u', 65535), ('u', 65536)]),
+             ('a', [one, ('u', 9)]), ('a', [('u', 10)]), ('u', 32), ('u', 8224), ('o', [(b'msg', ('s', b'done\n'))]), ('s', b'tab\t'),
+             ('o', [(b'id', ('s', b'abcdef')), (b'n', one)]), ('a', [T, one]), ('a', [N, ('u', 2), N]),
+             ('o', [(b'B', one), (b'a', ('u', 2))]), ('o', [(b'ID', one), (b'Name', ('u', 2)), (b'user_id', ('u', 3))])]
     out = list(base)
     g = ctx.g
     for _ in range(n):
